@@ -13,7 +13,7 @@ from vf.lib import buf, SECP256K1_EC_COMPRESSED, SECP256K1_EC_UNCOMPRESSED
 N, P, HALF = ec.N, ec.P, ec.HALF_N
 M256 = gens.M256
 
-RULE = ("cases: (a) ENUMERATED public-key strings: every prefix byte 0..255 x every length 0..80 x 6 bodies, and 26 interesting prefixes x lengths around 33/65 x "
+RULE = ("cases: (a) ENUMERATED public-key strings: every prefix byte 0..255 x every length 0..80 x 3 bodies (6 in the thorough tier), and 26 interesting prefixes x lengths around 33/65 x "
         "~40 x values (0,1,p-1,p,p+1,n-1,n,n+1,2^256-1, their on-curve neighbours, tiny-x points and their x+p re-encodings, x of tiny-y points) x y variants "
         "(both roots, y+p for tiny y, off by one, 0, p-1, p, 2^256-1); the same x values through the x-only parser; "
         "(b) ENUMERATED DER strings from the grammar SEQ(tag, length form) INT(tag, length form, padding, value) INT(...) trailer, with length forms "
@@ -295,6 +295,26 @@ def _filler(n):
     return bytes(((i * 37 + 11) & 0xFF) for i in range(n))
 
 
+class Selector:
+    """Sharding of an enumeration: the i-th case belongs to shard (rank among the selected cases) % nshards.
+    stride > 1 keeps a deterministic pseudo-random 1/stride subsample (multiplicative hash of the index, so that it does not
+    line up with the loop structure of the enumeration)."""
+
+    def __init__(self, shard, nshards, stride=1):
+        self.shard, self.nshards, self.stride = shard, nshards, stride
+        self.i = 0
+        self.j = 0
+
+    def take(self):
+        i = self.i
+        self.i += 1
+        if self.stride > 1 and (((i * 0x9E3779B1) & 0xFFFFFFFF) >> 13) % self.stride:
+            return False
+        j = self.j
+        self.j += 1
+        return j % self.nshards == self.shard
+
+
 def pub_string(prefix, length, x, y):
     if length == 0:
         return b""
@@ -304,43 +324,41 @@ def pub_string(prefix, length, x, y):
     return bytes([prefix]) + body + _filler(length - 65)
 
 
-def pub_enum(tier, shard, nshards):
-    i = 0
+def pub_enum(tier, shard, nshards, stride=1):
+    """stride > 1: a deterministic 1/stride subsample (used for the sanitizer build)"""
+    sel = Selector(shard, nshards, stride)
     gy = ec.GY
     t1 = ec.lift_x(1)
     bodies = [(ec.GX, gy), (ec.GX, P - gy), t1, (t1[0] + P, t1[1]), (0, 0), (M256, M256)]
     # grid A: every prefix x every length x a handful of bodies
+    if tier == "quick":
+        bodies = bodies[:1] + bodies[2:4]
     for prefix in range(256):
         for length in range(81):
             for bi, (x, y) in enumerate(bodies):
-                if i % nshards == shard:
+                if sel.take():
                     yield {"k": "pub", "p": prefix, "l": length, "x": x, "y": y}
-                i += 1
     # grid B: interesting prefixes x the key lengths x all boundary coordinates
     for prefix in _PREFIX_B:
         for x in XSET:
             ys = _yvariants(x)
             for length in (33, 65):
                 for y in (ys if length == 65 else ys[:1]):
-                    if i % nshards == shard:
+                    if sel.take():
                         yield {"k": "pub", "p": prefix, "l": length, "x": x, "y": y}
-                    i += 1
             for length in _LEN_B:
-                if i % nshards == shard:
+                if sel.take():
                     yield {"k": "pub", "p": prefix, "l": length, "x": x, "y": ys[0]}
-                i += 1
     # tiny-y points: y and y+p under every key prefix
     for (x, y) in _TINY_Y:
         for prefix in (2, 3, 4, 6, 7):
             for yy in (y, P - y, y + P, P - y + 1):
-                if i % nshards == shard:
+                if sel.take():
                     yield {"k": "pub", "p": prefix, "l": 65, "x": x, "y": yy}
-                i += 1
     # x-only: every boundary x
     for x in XSET:
-        if i % nshards == shard:
+        if sel.take():
             yield {"k": "xonly", "x": x}
-        i += 1
 
 
 def run_pub_enum(env, case):
@@ -440,16 +458,15 @@ _TRAILS = ["none", "in", "out", "both", "in_int", "out2"]
 _BADTAGS = [0x03, 0x82, 0x22, 0x00, 0x30, 0x01, 0x12]
 
 
-def der_enum(tier, shard, nshards):
-    i = 0
+def der_enum(tier, shard, nshards, stride=1):
+    """stride > 1: a deterministic 1/stride subsample (used for the sanitizer build)"""
+    sel = Selector(shard, nshards, stride)
 
     def plain(v):
         return [0x02, "min", "min", _VI[v]]
 
     def emit(c):
-        nonlocal i
-        i += 1
-        return (i - 1) % nshards == shard
+        return sel.take()
 
     # 0. canonical encodings of every pair of values (in-range x out-of-range x oversize), and with each side negated
     for rv in range(len(_ALLVALUES)):
@@ -477,11 +494,11 @@ def der_enum(tier, shard, nshards):
                     yield c
     # 2. every sequence framing x trailer x a reduced INT variant set (incl. the bodies that force long-form sequence lengths)
     for seq in _SEQFORMS:
-        for trail in _TRAILS[:3] + ["in_int"]:
+        for trail in (_TRAILS[:3] if tier == "quick" else _TRAILS):
             for side in ("r", "s"):
                 for form in LENFORMS:
                     for pad in PADS:
-                        for v in DER_VALUES_SMALLSET:
+                        for v in (DER_VALUES_SMALLSET if tier == "quick" else _ALLVALUES):
                             c = {"seq": seq, "r": plain(N - 1), "s": plain(1), "trail": trail}
                             c[side] = [0x02, form, pad, _VI[v]]
                             if emit(c):
@@ -881,15 +898,31 @@ def run_never(env, case):
 
 
 CF = {"quick": ["prod", "vsan"], "thorough": ["prod", "vsan"]}
+PROD = {"quick": ["prod"], "thorough": ["prod"]}
+SAN = {"quick": ["vsan"], "thorough": ["vsan"]}
+_PUB_COVER = ["accept:compressed", "accept:uncompressed", "accept:hybrid", "reject:len", "reject:prefix", "reject:x>=p", "reject:x+p_twin", "reject:y>=p", "reject:y+p_twin",
+              "reject:offcurve", "reject:hybrid_parity", "xonly_accept", "xonly_reject:x+p_twin", "xonly_reject:offcurve"]
+_DER_COVER = ["der_accept:in_range", "der_accept:out_of_range", "der_accept:negative", "der_accept:oversize", "der_reject", "len>129", "len>255", "truncated", "extended"]
+
+
+def _san_pub_enum(tier, shard, nshards):
+    return pub_enum(tier, shard, nshards, stride=3)
+
+
+def _san_der_enum(tier, shard, nshards):
+    return der_enum(tier, shard, nshards, stride=3)
+
+
+# The grids are exhaustive on the production build; the sanitizer build (about 8x slower per case under the ASan-preloaded interpreter) takes every third case of the
+# same enumeration, which still contains every structural form with several values.
 TESTS = [
-    Test("pub_grid", pub_enum, run_pub_enum, kind="enum", cfgs=CF,
-         must_cover=["accept:compressed", "accept:uncompressed", "accept:hybrid", "reject:len", "reject:prefix", "reject:x>=p", "reject:x+p_twin", "reject:y>=p", "reject:y+p_twin",
-                     "reject:offcurve", "reject:hybrid_parity", "xonly_accept", "xonly_reject:x+p_twin", "xonly_reject:offcurve"]),
-    Test("der_grid", der_enum, run_der_enum, kind="enum", cfgs=CF,
-         must_cover=["der_accept:in_range", "der_accept:out_of_range", "der_accept:negative", "der_accept:oversize", "der_reject", "len>129", "len>255", "truncated", "extended"]),
+    Test("pub_grid", pub_enum, run_pub_enum, kind="enum", cfgs=PROD, max_workers=8, must_cover=_PUB_COVER),
+    Test("pub_grid_san", _san_pub_enum, run_pub_enum, kind="enum", cfgs=SAN, max_workers=8, must_cover=_PUB_COVER),
+    Test("der_grid", der_enum, run_der_enum, kind="enum", cfgs=PROD, max_workers=8, must_cover=_DER_COVER),
+    Test("der_grid_san", _san_der_enum, run_der_enum, kind="enum", cfgs=SAN, max_workers=8, must_cover=_DER_COVER),
     Test("compact_grid", compact_enum, run_compact_enum, kind="enum", cfgs=CF, max_workers=2,
          must_cover=["compact_accept", "compact_reject", "rec_accept", "rec_reject"]),
-    Test("mutate", mutate_case, run_mutate, quick=8000, thorough=200000, cfgs=CF,
+    Test("mutate", mutate_case, run_mutate, quick=6000, thorough=200000, cfgs=CF,
          must_cover=["fmt:comp", "fmt:uncomp", "fmt:hybrid", "fmt:xonly", "fmt:der", "fmt:compact", "fmt:rec", "accept:hybrid", "der_accept:in_range", "der_reject", "compact_reject"]),
     Test("never_verifies", never_case, run_never, quick=500, thorough=20000, cfgs=CF,
          must_cover=["twin:s+n", "twin:r+n", "twin:negative", "twin:oversize", "failed:trailing", "Rx>=n"]),
@@ -897,5 +930,5 @@ TESTS = [
 
 FUZZ_TARGETS = [
     FuzzTarget("fuzz_codec", "fuzz_codec.c", cfgs={"quick": ["vsan"], "thorough": ["vsan", "prod"]},
-               runs={"quick": 250000, "thorough": 12000000}, workers={"quick": 8, "thorough": 16}, max_len=400, corpus="fuzz_codec", link=("-lgmp",)),
+               runs={"quick": 200000, "thorough": 4000000}, workers={"quick": 8, "thorough": 16}, max_len=400, corpus="fuzz_codec", link=("-lgmp",)),
 ]
